@@ -51,7 +51,15 @@ impl TypeSpace {
 
         let non_null = non_nulls.into_iter().next()?;
 
-        let (type_entry, _) = self.convert_option(type_name, metadata, non_null).ok()?;
+        // As for `type: [T, null]`: if a name is required, the newtype
+        // wrapping the Option takes it so the inner type needs its own.
+        let inner_type_name = match &type_name {
+            Name::Required(name) => Name::Suggested(format!("{}Inner", name)),
+            _ => type_name,
+        };
+        let (type_entry, _) = self
+            .convert_option(inner_type_name, metadata, non_null)
+            .ok()?;
 
         Some(type_entry)
     }
